@@ -7,34 +7,44 @@ import (
 	"time"
 )
 
-// SimContext is a context.Context whose clock is the number of times it has
-// been consulted (one tick per Done/Err call = one VM instruction today) plus
-// whatever host functions add with Advance.  Cancellation fires at a chosen
-// tick, so "every moment of cancellation" is an integer axis.
+// SimContext is a context.Context on a simulated clock.
+//
+// Simulated time does NOT depend on how often the engine consults its
+// context: the overlay rewriter inserts a call of Tick() at the top of every
+// loop of the interpreter packages, so one tick is (roughly) one VM
+// instruction whether the engine polls the context every instruction, every
+// thousand instructions, through a channel it cached once, or never.  Host
+// functions add time with Advance.  Cancellation fires when the clock passes
+// CancelAt: the Done channel is closed and Err turns non-nil at that instant.
+//
+// A context receives the ticks of the code that runs "under" it: the harness
+// brackets every API call with Do (per task in the concurrency simulation).
 type SimContext struct {
 	done  chan struct{}
 	fired bool
 	err   error
 
-	Clock    int64 // simulated time, ticks
-	Polls    int64 // number of Done()/Err() calls
-	CancelAt int64 // fire when Clock > CancelAt; <0 = never
-	FiredAt  int64 // value of Polls when it fired
-	Deadline0 bool // report DeadlineExceeded rather than Canceled
+	Clock     int64 // simulated time: ticks + what host functions added
+	Ticks     int64 // interpreter loop iterations seen
+	Polls     int64 // number of Done()/Err() calls (how often the engine looked)
+	CancelAt  int64 // fire when Clock > CancelAt; <0 = never
+	FiredAt   int64 // value of Ticks when it fired
+	Deadline0 bool  // report DeadlineExceeded rather than Canceled
 
-	// PollsAfter counts polls made after cancellation fired.
+	// TicksAfter / PollsAfter count what happened after the cancellation.
+	TicksAfter int64
 	PollsAfter int64
 
-	// Hard cap on polls (runaway protection, independent of the plan).
+	// Hard cap on ticks (runaway protection, independent of the plan).
 	HardCap int64
 	HitCap  bool
 
 	// OnFire, if set, runs at the instant the cancellation fires.
 	OnFire func()
 
-	// PanicAfter > 0: a poll made more than PanicAfter polls after the
-	// cancellation panics with RunawayPanic (the script ignores the
-	// context; this is the only way left to get control back).
+	// PanicAfter > 0: the tick that comes more than PanicAfter ticks after
+	// the cancellation panics with RunawayPanic (the script ignores the
+	// context; this gets control back deterministically).
 	PanicAfter int64
 	Runaway    bool
 
@@ -46,11 +56,19 @@ type SimContext struct {
 	opSeq              [maxTasks]int
 }
 
-// RunawayPanic is the value SimContext panics with (see PanicAfter).
-const RunawayPanic = "verifsim: context still polled long after cancellation"
+// RunawayPanic is the value Tick panics with (see PanicAfter).
+const RunawayPanic = "verifsim: still interpreting long after the context was cancelled"
+
+var (
+	curCtx  *SimContext
+	taskCtx [maxTasks]*SimContext
+	// TotalTicks counts every tick of the process (evidence; a clock seam
+	// that never ticks is reported as trouble, not as a pass).
+	TotalTicks int64
+)
 
 // NewSimContext returns a context that is cancelled when its clock passes
-// cancelAt (cancelAt = 0: the very first poll already sees it cancelled);
+// cancelAt (cancelAt = 0: cancelled from the first tick or poll on);
 // cancelAt < 0 never fires.
 func NewSimContext(cancelAt int64) *SimContext {
 	return &SimContext{done: make(chan struct{}), CancelAt: cancelAt, ownerTask: -1}
@@ -63,10 +81,65 @@ func (c *SimContext) Rearm(cancelAt int64) {
 		c.fired = false
 		c.err = nil
 	}
-	c.Clock, c.Polls, c.PollsAfter, c.FiredAt = 0, 0, 0, 0
+	c.Clock, c.Ticks, c.Polls, c.PollsAfter, c.TicksAfter, c.FiredAt = 0, 0, 0, 0, 0, 0
 	c.CancelAt = cancelAt
 	c.HitCap = false
 	c.Runaway = false
+}
+
+//go:norace
+func setCurrent(c *SimContext) {
+	if s := active; s != nil && s.cur >= 0 {
+		taskCtx[s.cur] = c
+		return
+	}
+	curCtx = c
+}
+
+//go:norace
+func current() *SimContext {
+	if s := active; s != nil && s.cur >= 0 {
+		return taskCtx[s.cur]
+	}
+	return curCtx
+}
+
+// Do runs f with c as the context that receives the ticks.
+//
+//go:norace
+func (c *SimContext) Do(f func()) {
+	prev := current()
+	setCurrent(c)
+	defer setCurrent(prev)
+	f()
+}
+
+// SetCurrent makes c the receiver of ticks until further notice (used by the
+// driver seam, where one context lives for the whole process).
+func SetCurrent(c *SimContext) { setCurrent(c) }
+
+// Tick is called at the top of every interpreter loop iteration.
+//
+//go:norace
+func Tick() {
+	TotalTicks++
+	s := active
+	inTask := s != nil && s.cur >= 0
+	var c *SimContext
+	if inTask {
+		c = taskCtx[s.cur]
+	} else {
+		c = curCtx
+	}
+	if c != nil {
+		c.tick()
+	}
+	if inTask {
+		if c != nil {
+			c.monitor(s.cur)
+		}
+		s.yield(YPoll, 0)
+	}
 }
 
 //go:norace
@@ -75,7 +148,7 @@ func (c *SimContext) fire() {
 		return
 	}
 	c.fired = true
-	c.FiredAt = c.Polls
+	c.FiredAt = c.Ticks
 	if c.Deadline0 {
 		c.err = context.DeadlineExceeded
 	} else {
@@ -97,7 +170,7 @@ func (c *SimContext) Cancel() { c.fire() }
 //go:norace
 func (c *SimContext) Fired() bool { return c.fired }
 
-// Advance moves simulated time forward by n ticks (a "slow" host function).
+// Advance moves simulated time forward by n ticks (a host function).
 //
 //go:norace
 func (c *SimContext) Advance(n int64) {
@@ -110,18 +183,18 @@ func (c *SimContext) Advance(n int64) {
 //go:norace
 func (c *SimContext) tick() {
 	if c.fired {
-		c.PollsAfter++
-		if c.PanicAfter > 0 && c.PollsAfter > c.PanicAfter {
+		c.TicksAfter++
+		if c.PanicAfter > 0 && c.TicksAfter > c.PanicAfter {
 			c.Runaway = true
 			panic(RunawayPanic)
 		}
 	}
-	c.Polls++
+	c.Ticks++
 	c.Clock++
 	if !c.fired {
 		if c.CancelAt >= 0 && c.Clock > c.CancelAt {
 			c.fire()
-		} else if c.HardCap > 0 && c.Polls > c.HardCap {
+		} else if c.HardCap > 0 && c.Ticks > c.HardCap {
 			c.HitCap = true
 			c.fire()
 		} else if s := active; s != nil && s.Aborted {
@@ -129,15 +202,28 @@ func (c *SimContext) tick() {
 			c.fire()
 		}
 	}
-	if s := active; s != nil && s.cur >= 0 {
-		c.monitor(s.cur)
-		s.yield(YPoll, 0)
+}
+
+// poll is what Done and Err have in common.
+//
+//go:norace
+func (c *SimContext) poll() {
+	c.Polls++
+	if c.fired {
+		c.PollsAfter++
+	} else if c.CancelAt == 0 {
+		// already expired: visible even before the first tick
+		c.fire()
+	}
+	// the engine is evidently running under this context
+	if current() != c {
+		setCurrent(c)
 	}
 }
 
-// monitor flags polls of one operation that are interleaved with polls of
+// monitor flags ticks of one operation that are interleaved with ticks of
 // another task's operation on the same context (= the same evaluator): the
-// polls of one Run must be contiguous if runs are mutually exclusive.
+// instructions of one Run must be contiguous if runs are mutually exclusive.
 //
 //go:norace
 func (c *SimContext) monitor(task int) {
@@ -170,7 +256,7 @@ func (c *SimContext) OpBoundary(task int) {
 //
 //go:norace
 func (c *SimContext) Done() <-chan struct{} {
-	c.tick()
+	c.poll()
 	return c.done
 }
 
@@ -178,7 +264,7 @@ func (c *SimContext) Done() <-chan struct{} {
 //
 //go:norace
 func (c *SimContext) Err() error {
-	c.tick()
+	c.poll()
 	return c.err
 }
 
